@@ -300,8 +300,10 @@ PROPS["C16"] = dict(
           "exhaustive when <= max-points calls, sampled otherwise) and random 2-4-fault sets, with seeded delays on 1/4/16-worker runtimes and two caller policies "
           "(abandon the session / give up on the failing file and finalize); evaluation = one faulty run in which the fault was actually injected; "
           "violation = every call returned Ok although a store call failed, or a shard handed over before / without a successful put of a referenced xorb; "
-          "the ordering clause is also judged on every fault-free session of the session engine; distinct = (config, op, ordinal bucket, policy, concurrency, workers, where the error surfaced)"),
-    assumptions=SESSION_ASSUMPTIONS + ["failures of the local file system underneath the client are covered by C19, not here"],
+          "the ordering clause is also judged on every fault-free session of the session engine; "
+          "in addition I/O errors are injected underneath the local store client (strace: the k-th write fails with ENOSPC, the k-th fsync / rename with EIO, one per run, every such call of a put in turn): "
+          "a put that returns Ok - at once or when the caller retries after the error - must leave the xorb stored complete; distinct = (config, op, ordinal bucket, policy, concurrency, workers, where the error surfaced)"),
+    assumptions=SESSION_ASSUMPTIONS + ["process kills during local writes are C19's subject; I/O *errors* underneath the local store client are injected here, for LocalClient::put only"],
     jobs=[
         Job("faults-t1024", engine="faults", profile="smallchunk", env=senv(1024, 16384, 8, ib=65536, shard_min=8192),
             workers=(5, 6), cases=(8, 500), time_s=(45, 800), args={"max-files": 8, "max-file-bytes": 300000, "max-points": (30, 60)}, **FULL),
@@ -315,8 +317,10 @@ PROPS["C16"] = dict(
     ],
     gates=dict(evaluations=(800, 15000), distinct=(100, 400),
                counters={"fault_runs_injected": (600, 8000), "sessions_with_every_single_fault_point_enumerated": (40, 300), "shard_uploads_order_checked": (150, 3000),
-                         "error_surfaced_at_add_data": (10, 300), "error_surfaced_at_finalize": (100, 3000)}),
+                         "error_surfaced_at_add_data": (10, 300), "error_surfaced_at_finalize": (100, 3000), "io_error_points_localput": (150, 2000)}),
     exhaustive_note="single-fault points: every put and upload_shard ordinal of a session when the session has <= max-points store calls",
+    # I/O errors underneath the local store client (strace error injection, one failing write / fsync / rename per run)
+    extra_crash=dict(crash_modes=("ioerr",), crash_ops=("localput",), seeds=(6, 40), max_points=(60, 400)),
 )
 
 PROPS["C12"] = dict(
